@@ -132,6 +132,20 @@ section
 variable {α : Type} [Field α] [LinearOrder α]
 attribute [local instance] Arith.ofField
 
+/-- the field instance is lawful -/
+instance lawfulOfField : LawfulArith α where
+  add_eq _ _ := rfl
+  sub_eq _ _ := rfl
+  mul_eq _ _ := rfl
+  div_eq _ _ := rfl
+  neg_eq _ := rfl
+  lt_iff a b := by simp [Arith.lt]
+  le_iff a b := by simp [Arith.le]
+  zero_eq := rfl
+  one_eq := rfl
+  ofNat_eq _ := rfl
+  rnd_eq _ := rfl
+
 theorem gridSpec_flat_ofField [L : LawfulArith α] (dims : List (Dim α)) (coef : Int → α) (xs : List α)
     (hne : dims ≠ []) (hs : StridesRowMajor dims) (hx : xs.length = dims.length) :
     gridSpec dims coef xs
